@@ -390,7 +390,14 @@ class GridPoints:
         if self._rotations is None:
             return False
         m = self._mesh
-        mesh_equiv = [m[1] == m[2], m[2] == m[0], m[0] == m[1]]
+        s = self._is_shift
+        # Equivalent basis vectors have to be sampled identically, i.e., with
+        # the same mesh numbers and the same half-shifts.
+        mesh_equiv = [
+            m[1] == m[2] and s[1] == s[2],
+            m[2] == m[0] and s[2] == s[0],
+            m[0] == m[1] and s[0] == s[1],
+        ]
         lattice_equiv = get_lattice_vector_equivalence([r.T for r in self._rotations])
         return np.extract(lattice_equiv, mesh_equiv).all()
 
